@@ -153,6 +153,20 @@ class Universe:
         self.by_sha[sha] = bid
         return bid
 
+    _xxh3_helper = None
+
+    def xxh3_hex(self, bid):
+        """XXH3-128 through the xxhash crate (helper co-process); consistency only, see DESIGN 8"""
+        for (a, hx), b in self.by_digest.items():
+            if a == "xxh3" and b == bid:
+                return hx
+        if Universe._xxh3_helper is None or Universe._xxh3_helper.p.poll() is not None:
+            Universe._xxh3_helper = Driver("sync")
+        r = Universe._xxh3_helper.call({"op": "xxh3", "data": self.blobs[bid].spec})
+        hx = r["val"]
+        self.by_digest[("xxh3", hx)] = bid
+        return hx
+
     def learn_xxh3(self, bid, sri_string):
         for a, hx in R.parse_sri(sri_string):
             if a == "xxh3" and ("xxh3", hx) not in self.by_digest:
@@ -171,9 +185,7 @@ class Universe:
         for h in hashes:
             a, d = h["a"], h["d"]
             if a == "xxh3":
-                hx = next((x for (aa, x), b in self.by_digest.items() if aa == "xxh3" and b == d), None)
-                if hx is None:
-                    raise ToolError("xxh3 digest of %s not learned yet" % d)
+                hx = self.xxh3_hex(d)
             else:
                 hx = R.digest_hex(a, self.blobs[d].bytes())
             parts.append(R.sri_string(a, hx))
@@ -485,10 +497,10 @@ class Session:
             req["key"] = self.u.keys[st["key"]]
             sop["key"] = st["key"]
             st["_owner"] = st["key"]
+        if algo == "xxh3":
+            self.u.xxh3_hex(st["data"])
         resp = self.raw_call(lane, req)
         if resp.get("ok"):
-            if algo == "xxh3":
-                self.u.learn_xxh3(st["data"], resp["val"])
             return sop, resp, {"ok": True, "v": self.u.sri_abs(resp["val"])}
         return sop, resp, None
 
@@ -619,7 +631,7 @@ class Session:
         resp = self.raw_call(lane, req)
         if resp.get("ok"):
             self._new_handle(lane, resp, {"lane": lane, "kind": "writer", "key": st.get("key"),
-                                          "fed": b"", "big": False})
+                                          "fed": b"", "algo": algo})
             return sop, resp, {"ok": True, "v": "handle"}
         return sop, resp, None
 
@@ -660,6 +672,8 @@ class Session:
         h = st["h"]
         fl, dh, info = self.handles[h]
         fed_id = self.u.blob_id_of_bytes(info["fed"])
+        if info.get("algo") == "xxh3":
+            self.u.xxh3_hex(fed_id)
         sop = {"op": "w_commit", "h": h, "fed": fed_id}
         if info.get("key"):
             st["_owner"] = info["key"]
